@@ -11,10 +11,14 @@ package main
 
 import (
 	"context"
+	"encoding/json"
 	"fmt"
 	"github.com/scottyw/tetromino/gameboy/controller"
 	"os"
+	"os/exec"
 	"runtime"
+	"strconv"
+	"strings"
 	"sync"
 
 	"github.com/scottyw/tetromino/gameboy"
@@ -163,12 +167,18 @@ func run(c *rig.Ctx) {
 			return prog.Generate(r, prog.Options{OAMFocus: true, MBCWrites: true, CartType: -1})
 		case 2:
 			return prog.Sound(r)
+		case 3:
+			return prog.DMAStream(r) // OAM DMA transfers from its own ROM pages all the time
 		}
 		return prog.Generate(r, prog.Options{Interrupts: true, Serial: true, CartType: -1})
 	}
 	prepare := func(r *rig.Rng, i int64, n int) (paths []string, descr []string) {
 		for k := 0; k < n; k++ {
-			p := gen(r, i+int64(k))
+			kind := i + int64(k)
+			if i%4 == 3 {
+				kind = []int64{5, 2, 5, 3, 5, 0, 5, 6, 5, 4}[(i/4)%10] // every instance of this case runs a program of the same kind (two windowed scenes, two sound programs, ...)
+			}
+			p := gen(r, kind)
 			path := emu.TempROM(p.ROM, "c25")
 			paths = append(paths, path)
 			o := instOpt{debugLCD: (i+int64(k))%3 == 1}
@@ -202,9 +212,41 @@ func run(c *rig.Ctx) {
 		paths, descr := prepare(r, i, n)
 		defer cleanup(paths)
 		cycles := int(c.N(2, 5))*17556 + r.Intn(3000)
+		if ck := os.Getenv("C25_SOLO_CHILD"); ck != "" {
+			// child process: this instance is the first and only one the process ever makes
+			k, _ := strconv.Atoi(ck)
+			b, _ := json.Marshal(solo(paths[k%n], cycles))
+			fmt.Printf("SOLO %s\n", b)
+			return
+		}
 		var want [][]uint64
 		for k := 0; k < n; k++ {
 			want = append(want, solo(paths[k], cycles))
+		}
+		if i%3 == 0 {
+			// the solo references themselves are taken in a process that has made other instances
+			// before: compare them with runs in fresh processes, where each really is the only one
+			for k := 0; k < n; k++ {
+				cmd := exec.Command(os.Args[0], "case", fmt.Sprintf("interleaved:%d", i), "--tier", c.Tier, "--seed", fmt.Sprint(c.Seed))
+				cmd.Env = append(os.Environ(), fmt.Sprintf("C25_SOLO_CHILD=%d", k))
+				out, err := cmd.Output()
+				var child []uint64
+				for _, ln := range strings.Split(string(out), "\n") {
+					if strings.HasPrefix(ln, "SOLO ") {
+						json.Unmarshal([]byte(ln[5:]), &child)
+					}
+				}
+				if child == nil {
+					c.Note("fresh-process solo run for interleaved:%d/%d produced no trace (%v)", i, k, err)
+					c.Count("fresh_process_solo_runs_without_trace", 1)
+					continue
+				}
+				c.Count("fresh_process_solo_runs", 1)
+				if ok, at := equal(want[k], child); !ok {
+					c.Violate("solo-differs-from-fresh-process", fmt.Sprintf("%s: run alone in this process (which has made other instances before) its trace differs at entry %d of %d from the same program run as the only instance a fresh process ever makes", descr[k], at, len(child)), map[string]any{"program": descr[k]})
+					return
+				}
+			}
 		}
 		for _, order := range perms[n] {
 			c.Count("orders_tried", 1)
